@@ -278,7 +278,8 @@ theorem interactiveSkipLine_ok (h : Inv b f lr) :
 
 /-- What the `newline` scanner establishes for the line tails. -/
 theorem newline_facts {r : Nat} {l : VBytes} (hne : r ≠ 0)
-    (hr : (r = 0 ∧ l[0]? ≠ some 10) ∨ (r = 1 ∧ l[0]? = some 10) ∨
+    (hr : (r = 0 ∧ l[0]? ≠ some 10 ∧ (l[0]? = some 13 → l[1]? ≠ some 10)) ∨
+      (r = 1 ∧ l[0]? = some 10) ∨
       (r = 2 ∧ l[0]? = some 13 ∧ l[1]? = some 10)) :
     r ≤ l.length ∧ AllAt (· ≠ 10) l 0 (r - 1) ∧ (l[r - 1]? = some 10 ∨ r = l.length) := by
   rcases hr with ⟨h0, _⟩ | ⟨h1, h2⟩ | ⟨h1, h2, h3⟩
